@@ -278,16 +278,16 @@ PROPS.update({
                "(first poll must be Ready when no guard is held) and by histories holding read/write guards across other calls."),
         technique="Lean 4 proof (shared model + semaphore lemmas) + model/implementation correspondence on the async flavour",
         design_ref="DESIGN.md §6 C16"),
-    "C20": dict(obs_prop(["EyeballVerif.Props.C20"],
+    "C20": dict(obs_prop(["EyeballVerif.Props.C20", "EyeballVerif.Props.C20Box"],
         "c20_ledger_step / c20_ledger_run: after any sequence of calls every instance ever created (construction or clone) is in exactly one of {held by the library, handed to the caller, destroyed by the library}, "
-        "exactly once; c20_held_one: the library holds exactly one instance until the state is destroyed, none afterwards; c20_all_accounted",
-        [{"name": "own"}, {"name": "own@miri", "tier": "thorough"}], extra_tb=["memory safety of the three unsafe blocks (reuse_pin_box layout equality, ptr::read + forget in into_shared, unreachable_unchecked) is outside any executable model: validated by the "
+        "exactly once; c20_held_one: the library holds exactly one instance until the state is destroyed, none afterwards; c20_all_accounted. Props/C20Box — the reusable boxed future (reusable_box.rs, the crate's hand-written unsafe in-place replacement): c20_box_run (every history of set / poll / drop over any layouts and destructors that may panic: every future handed in is stored, dropped or leaked exactly once; one allocation exactly while a future is stored), c20_box_uniform + c20_box_all_dropped (the crate's use — one future type, quiet destructors: nothing is ever leaked, no set allocates, after the drop everything has been dropped exactly once), c20_box_realloc_iff (set allocates iff the layouts differ); the one leak of the general case is exhibited in the kernel",
+        [{"name": "own"}, {"name": "rbox"}, {"name": "own@miri", "tier": "thorough"}], extra_tb=["memory safety of the three unsafe blocks (reuse_pin_box layout equality, ptr::read + forget in into_shared, unreachable_unchecked) is outside any executable model: validated by the "
                                      "instrumented runs (double drops / leaks would show) and, in the thorough tier, by Miri — not proved"]),
         claim=("PARTIAL. Lean 4 theorems about the ownership ledger of the eyeball crate: each call moves instances between 'held by the library', 'handed to the caller' and 'destroyed'; for every call sequence "
                "the three sets partition all instances ever created, each exactly once (c20_ledger_run — no double drop, no leak, no drop while held), and the library holds exactly the current value until the "
                "last strong handle is gone (c20_held_one). Tied to the code by an instrumented element type (fresh id per construction/clone, drop registry with double-drop detection) whose library-held id set "
                "is compared with the model after every call, both lock flavours. For the vector crates and adapters (imbl shares and copies chunks internally) only the invariants are checked on the "
-               "implementation: no double drop, and nothing alive once vector, subscribers, adapters and diffs are gone. The memory safety of the unsafe blocks themselves is not a theorem."),
+               "implementation: no double drop, and nothing alive once vector, subscribers, adapters and diffs are gone. The reusable boxed future is modelled step by step (Model/RBox: layout check, drop in place, the CallOnDrop guard, unwinding) with the ownership theorems of Props/C20Box, and driven directly through a verification hook with futures of three layouts and panicking destructors (engine rbox). The memory safety of the unsafe blocks themselves is not a theorem."),
         technique="Lean 4 proof (partition invariant of an ownership ledger) + instrumented differential runs (exact for eyeball, invariants for the vector crates)",
         design_ref="DESIGN.md §6 C20"),
     "C04": dict(obs_prop(["EyeballVerif.Props.C04", "EyeballVerif.Props.C04Lin"],
@@ -327,11 +327,13 @@ ENGINES = [
      "kind_free_text": "real threads driven through every pause-point interleaving by a director (forced schedules) + free-running rounds; traces replayed on the Lean lock-level model"},
     {"name": "own", "path": "harness/src/eng_own.rs", "serves_properties": ["C20"],
      "kind_free_text": "instrumented element type (ids, drop registry) through observable histories (library-held ids compared with the Lean ledger after every call) and vector/adapter histories (invariants)"},
+    {"name": "rbox", "path": "harness/src/eng_rbox.rs", "serves_properties": ["C20"],
+     "kind_free_text": "differential correspondence (the crate's private ReusableBoxFuture, reached through the hook eyeball_im::verif::RBox, vs Lean model RB) with instrumented futures of three layouts and destructors that may panic, a counting global allocator; + implementation-side oracles (no double drop, stored = last set, set allocates iff layouts differ)"},
     {"name": "obsasync", "path": "harness/src/eng_obs.rs", "serves_properties": ["C16", "C19"],
      "kind_free_text": "the same histories on the async-lock flavour, every future polled once by a hand-rolled executor, against the same Lean model"},
 ]
 
-PROPS["C20"]["rule"] = ("engine own — 1500 (thorough 80000) random histories of 5..45 calls on Observable / SharedObservable in both lock flavours with an instrumented element type "
+PROPS["C20"]["rule"] = ("engine rbox — exhaustive: every sequence of 3 (thorough 4) sets over 3 layouts x {quiet, panicking destructor} from each initial future, each followed by a poll (497 cases); random: 1500 (thorough 40000) histories of up to 30 operations, half of them uniform (one layout, quiet destructors: the crate's own use). engine own — 1500 (thorough 80000) random histories of 5..45 calls on Observable / SharedObservable in both lock flavours with an instrumented element type "
     "(set, set_if_not_eq equal/different, set_if_hash_not_eq, take, update, get, subscribe, poll, next_now, clone/drop of subscribers and owners, into_shared), the set of ids held by the "
     "library compared with the Lean ledger after every call; 800 (thorough 40000) random histories on an ObservableVector with plain and batched subscribers, a head-filter-sort chain and a tail, "
     "transactions, entries, lag-inducing capacities, kept and mapped diffs, with the no-double-drop / nothing-left-alive check at the end. Every case is non-trivial; distinct = distinct traces.")
